@@ -24,227 +24,17 @@ import (
 
 	"github.com/zmap/zcrypto/tls"
 	"verifharness/lib/obs"
+	"verifharness/lib/wire"
 )
 
-// Fields is the abstract value: a JSON object, or [] for a message without fields.
-type Fields map[string]json.RawMessage
-
-func (f *Fields) UnmarshalJSON(b []byte) error {
-	if bytes.Equal(bytes.TrimSpace(b), []byte("[]")) {
-		*f = Fields{}
-		return nil
-	}
-	var m map[string]json.RawMessage
-	if err := json.Unmarshal(b, &m); err != nil {
-		return err
-	}
-	*f = m
-	return nil
-}
-
 type Case struct {
-	T     string `json:"t"`
-	V     Fields `json:"v"`
-	Bytes []int  `json:"bytes"`
-	PF    bool   `json:"pf"`
-	Kind  string `json:"kind,omitempty"`
+	T     string      `json:"t"`
+	V     wire.Fields `json:"v"`
+	Bytes []int       `json:"bytes"`
+	PF    bool        `json:"pf"`
+	Kind  string      `json:"kind,omitempty"`
 	// Base: the base value of the type (for naming the culprit fields of a finding)
-	Base Fields `json:"base,omitempty"`
-}
-
-func toBytes(a []int) []byte {
-	b := make([]byte, len(a))
-	for i, x := range a {
-		b[i] = byte(x)
-	}
-	return b
-}
-
-func rawBytes(r json.RawMessage) ([]byte, error) {
-	var a []int
-	if err := json.Unmarshal(r, &a); err != nil {
-		return nil, err
-	}
-	for _, x := range a {
-		if x < 0 || x > 255 {
-			return nil, fmt.Errorf("byte %d", x)
-		}
-	}
-	return toBytes(a), nil
-}
-
-func beUint(b []byte) uint64 {
-	var u uint64
-	for _, x := range b {
-		u = u<<8 | uint64(x)
-	}
-	return u
-}
-
-func rawByteLists(r json.RawMessage) ([][]byte, error) {
-	var a [][]int
-	if err := json.Unmarshal(r, &a); err != nil {
-		return nil, err
-	}
-	res := make([][]byte, len(a))
-	for i := range a {
-		res[i] = toBytes(a[i])
-	}
-	return res, nil
-}
-
-// numeric fields inside nested records
-var numericSub = map[string]bool{"group": true, "obfuscatedTicketAge": true}
-
-func rawRecord(r json.RawMessage) (map[string]interface{}, error) {
-	var m map[string]json.RawMessage
-	if err := json.Unmarshal(r, &m); err != nil {
-		return nil, err
-	}
-	res := map[string]interface{}{}
-	for k, v := range m {
-		b, err := rawBytes(v)
-		if err != nil {
-			return nil, err
-		}
-		if numericSub[k] {
-			res[k] = beUint(b)
-		} else {
-			res[k] = b
-		}
-	}
-	return res, nil
-}
-
-// concretise converts the abstract field value (JSON from TLC) to the normalised Go form that
-// (*tls.VerifMsg).Set/Get use; zero is Get(field) of a fresh message and tells the target type.
-func concretise(zero interface{}, r json.RawMessage) (interface{}, error) {
-	switch zero.(type) {
-	case bool:
-		var b bool
-		err := json.Unmarshal(r, &b)
-		return b, err
-	case uint64:
-		b, err := rawBytes(r)
-		if err != nil {
-			return nil, err
-		}
-		if len(b) > 8 {
-			return nil, fmt.Errorf("integer of %d bytes", len(b))
-		}
-		return beUint(b), nil
-	case string:
-		b, err := rawBytes(r)
-		return string(b), err
-	case []byte:
-		return rawBytes(r)
-	case []uint64:
-		l, err := rawByteLists(r)
-		if err != nil {
-			return nil, err
-		}
-		res := make([]uint64, len(l))
-		for i := range l {
-			if len(l[i]) != 2 {
-				return nil, fmt.Errorf("list item of %d bytes", len(l[i]))
-			}
-			res[i] = beUint(l[i])
-		}
-		return res, nil
-	case [][]byte:
-		return rawByteLists(r)
-	case []string:
-		l, err := rawByteLists(r)
-		if err != nil {
-			return nil, err
-		}
-		res := make([]string, len(l))
-		for i := range l {
-			res[i] = string(l[i])
-		}
-		return res, nil
-	case []map[string]interface{}:
-		var a []json.RawMessage
-		if err := json.Unmarshal(r, &a); err != nil {
-			return nil, err
-		}
-		res := make([]map[string]interface{}, len(a))
-		for i := range a {
-			m, err := rawRecord(a[i])
-			if err != nil {
-				return nil, err
-			}
-			res[i] = m
-		}
-		return res, nil
-	case map[string]interface{}:
-		z := zero.(map[string]interface{})
-		if _, isCert := z["certs"]; isCert {
-			var m map[string]json.RawMessage
-			if err := json.Unmarshal(r, &m); err != nil {
-				return nil, err
-			}
-			certs, err := rawByteLists(m["certs"])
-			if err != nil {
-				return nil, err
-			}
-			ocsp, err := rawBytes(m["ocsp"])
-			if err != nil {
-				return nil, err
-			}
-			scts, err := rawByteLists(m["scts"])
-			if err != nil {
-				return nil, err
-			}
-			return map[string]interface{}{"certs": certs, "ocsp": ocsp, "scts": scts,
-				"hasOCSP": len(ocsp) > 0, "hasSCTs": len(scts) > 0}, nil
-		}
-		return rawRecord(r)
-	}
-	return nil, fmt.Errorf("no conversion to %T", zero)
-}
-
-// canon renders a normalised value so that nil and empty sequences coincide (the abstract
-// value is a sequence) and map keys are ordered.
-func canon(v interface{}) string {
-	switch x := v.(type) {
-	case []byte:
-		return fmt.Sprintf("b%x", x)
-	case string:
-		return fmt.Sprintf("b%x", []byte(x))
-	case [][]byte:
-		p := make([]string, len(x))
-		for i := range x {
-			p[i] = canon(x[i])
-		}
-		return "[" + strings.Join(p, ",") + "]"
-	case []string:
-		p := make([]string, len(x))
-		for i := range x {
-			p[i] = canon(x[i])
-		}
-		return "[" + strings.Join(p, ",") + "]"
-	case []uint64:
-		return fmt.Sprint(x)
-	case []map[string]interface{}:
-		p := make([]string, len(x))
-		for i := range x {
-			p[i] = canon(x[i])
-		}
-		return "[" + strings.Join(p, ",") + "]"
-	case map[string]interface{}:
-		var ks []string
-		for k := range x {
-			ks = append(ks, k)
-		}
-		sort.Strings(ks)
-		p := make([]string, 0, len(ks))
-		for _, k := range ks {
-			p = append(p, k+":"+canon(x[k]))
-		}
-		return "{" + strings.Join(p, ",") + "}"
-	}
-	return fmt.Sprintf("%v", v)
+	Base wire.Fields `json:"base,omitempty"`
 }
 
 // build creates the real message of a case; returns the message and the concretised fields.
@@ -268,7 +58,7 @@ func build(c *Case) (*tls.VerifMsg, map[string]interface{}, error) {
 		if !ok {
 			return nil, nil, fmt.Errorf("%s has no field %q", name, f)
 		}
-		val, err := concretise(zero, r)
+		val, err := wire.Concretise(zero, r)
 		if err != nil {
 			return nil, nil, fmt.Errorf("%s.%s: %v", name, f, err)
 		}
@@ -278,8 +68,8 @@ func build(c *Case) (*tls.VerifMsg, map[string]interface{}, error) {
 		}
 		// concretisation check (rule 2): read the field back
 		back, _ := m.Get(f)
-		if canon(back) != canon(val) {
-			return nil, nil, fmt.Errorf("%s.%s: set %s, read back %s", name, f, clip(canon(val)), clip(canon(back)))
+		if wire.Canon(back) != wire.Canon(val) {
+			return nil, nil, fmt.Errorf("%s.%s: set %s, read back %s", name, f, clip(wire.Canon(val)), clip(wire.Canon(back)))
 		}
 	}
 	return m, fields, nil
@@ -313,8 +103,8 @@ func diff(m *tls.VerifMsg, want map[string]interface{}) (string, string) {
 	sort.Strings(ks)
 	for _, k := range ks {
 		got, _ := m.Get(k)
-		if canon(got) != canon(want[k]) {
-			return k, fmt.Sprintf("field %s: decoded %s, value was %s", k, clip(canon(got)), clip(canon(want[k])))
+		if wire.Canon(got) != wire.Canon(want[k]) {
+			return k, fmt.Sprintf("field %s: decoded %s, value was %s", k, clip(wire.Canon(got)), clip(wire.Canon(want[k])))
 		}
 	}
 	return "", ""
@@ -330,7 +120,7 @@ func checkCase(c *Case) (fs []finding, real []byte, err error) {
 	if err != nil {
 		return nil, nil, err
 	}
-	spec := toBytes(c.Bytes)
+	spec := wire.ToBytes(c.Bytes)
 	o := obs.Guard(120*time.Second, func() { real = append([]byte(nil), m.Marshal()...) })
 	if o.Timeout {
 		return nil, nil, fmt.Errorf("marshal timed out")
@@ -428,7 +218,7 @@ func hasKind(fs []finding, kind string) bool {
 // if the finding survives).  It only makes the signature of a finding specific; the verdict is
 // always about the original, valid value.
 func culprit(c *Case, kind string) string {
-	cur := Fields{}
+	cur := wire.Fields{}
 	for k, v := range c.V {
 		cur[k] = v
 	}
@@ -492,7 +282,7 @@ func main() {
 				obs.Fatal("%v", err)
 			}
 			// the base value of each type = the value with the shortest encoding
-			base := map[string]Fields{}
+			base := map[string]wire.Fields{}
 			blen := map[string]int{}
 			for i := range cases {
 				if l, ok := blen[cases[i].T]; !ok || len(cases[i].Bytes) < l {
@@ -518,7 +308,7 @@ func main() {
 				if c.PF {
 					prefixes += len(real)
 				}
-				if real != nil && !bytes.Equal(real, toBytes(c.Bytes)) {
+				if real != nil && !bytes.Equal(real, wire.ToBytes(c.Bytes)) {
 					differs++
 					w.Write(map[string]any{"t": c.T, "v": c.V, "bytes": intsOf(real), "spec": c.Bytes, "pf": c.PF})
 				}
